@@ -220,11 +220,16 @@ def timed_long(rng, mops):
     return out
 
 
-def gen_expiry(rng, idx, tmo):
+def gen_expiry(rng, idx, tmo, fresh=None):
     """an idle gap LONGER than retention + sweep period (the driver really waits 1.75 timeouts with a short timeout):
     every queue expires; packets queued for a session without a carrier are lost, an idle attached carrier is closed
-    by the server, and afterwards the session gets a NEW queue that delivers only what was written after the gap."""
+    by the server, and afterwards the session gets a NEW queue that delivers only what was written after the gap.
+    fresh = k: the first session's carrier is attached and idle through the gap (its record expires with an EMPTY queue)
+    and after the gap k ClientIDs that have NO record (never seen before) are written to - first while they have no
+    carrier at all, then on a carrier of their own: a new record gets a never-used queue (C05_new_queue_after_expiry), so
+    nothing written to them may reach a carrier that presented another ClientID."""
     cids = ["%016x" % rng.getrandbits(64) for _ in range(rng.randrange(1, 3))]
+    written = {}
     ops, mops = [], []
     now = [rng.randrange(0, 1000)]
     carriers = []     # dict(cid, open)
@@ -251,6 +256,7 @@ def gen_expiry(rng, idx, tmo):
         p = newpkt()
         tick()
         ops.append("w:x%s:x%s" % (c, p)); mops.append("w:x%s:x%s:%d" % (c, p, now[0]))
+        written.setdefault(c, []).append(p)
         if deliver_to is not None:
             mops.append("s%d:%d" % (deliver_to, now[0]))
             expdown.setdefault(deliver_to, []).append(p)
@@ -260,8 +266,10 @@ def gen_expiry(rng, idx, tmo):
 
     lost = []
     attached = {}
-    for c in cids:
+    for n, c in enumerate(cids):
         mode = rng.choice(["idle-carrier", "no-carrier", "closed-carrier"])
+        if fresh and n == 0:
+            mode = "idle-carrier"
         if mode != "no-carrier":
             i = attach(c)
             for _ in range(rng.randrange(0, 3)):
@@ -284,14 +292,50 @@ def gen_expiry(rng, idx, tmo):
         carriers[i]["expired"] = True
     if attached:
         ops[-1] += "".join("@k%d" % i for i in attached.values())
-    for c in cids:
+    for _ in range(fresh or 0):
+        # a ClientID without a record: packets queue for it while it has no carrier, then its own carrier takes them
+        b = "%016x" % rng.getrandbits(64)
+        cids.append(b)
+        queued = [write(b, None) for _ in range(rng.randrange(1, 4))]
+        j = attach(b)
+        for p in queued:
+            mops.append("s%d:%d" % (j, now[0]))
+            expdown.setdefault(j, []).append(p)
+            downn[j] = downn.get(j, 0) + len(prefix(len(p) // 2)) // 2 + len(p) // 2
+        ops[-1] += "@d%d=%d" % (j, downn[j])
+        for _ in range(rng.randrange(0, 3)):
+            write(b, j)
+    for c in cids[:len(cids) - (fresh or 0)]:
         if rng.random() < 0.8:
             i = attach(c)
             for _ in range(rng.randrange(1, 3)):
                 write(c, i)
         else:
             write(c, None)
-    return ops, mops, dict(cids=cids, carriers=carriers, expdown=expdown, lost=lost)
+    return ops, mops, dict(cids=cids, carriers=carriers, expdown=expdown, lost=lost, written=written, fresh=fresh or 0)
+
+
+def check_expiry(meta, d):
+    """the property on what each carrier was written in a scenario with an expiry: only packets WriteTo was given for the
+    ClientID the carrier presented (whichever side of the gap), none twice"""
+    bad, seen = [], {}
+    for i, k in enumerate(meta["carriers"]):
+        st, wire = d.get("k%d" % i, "open:x").split(":")
+        chunks, e = c09.py_decode(wire[1:])
+        mine = meta["written"].get(k["cid"], [])
+        for p in chunks:
+            if p not in mine:
+                owner = [cc for cc, l in meta["written"].items() if p in l]
+                bad.append(("downstream-wrong-session" if owner else "downstream-foreign-packet",
+                            "carrier %d (ClientID %s%s) was written packet %s.. addressed to %s%s" % (
+                                i, k["cid"], ", attached and idle for longer than the retention: its record had expired with an empty queue"
+                                if k.get("expired") else "", p[:16], owner[0] if owner else "nobody",
+                                ", a ClientID that had no record when WriteTo was called" if owner and owner[0] in meta["cids"][len(meta["cids"]) - meta["fresh"]:] else "")))
+            seen[p] = seen.get(p, 0) + 1
+    for p, cnt in seen.items():
+        if cnt > 1:
+            bad.append(("downstream-duplicated", "packet %s.. was written to %d carriers" % (p[:16], cnt)))
+    return bad
 
 
 # ------------------------------------------------------------------ moving sessions through Listen/Accept
@@ -1184,6 +1228,9 @@ def run(ctx):
     timed = [(scen[i], timed_long(ctx.rng, scen[i][1])) for i in range(nt)]
     TMO = 2000
     expiry = [gen_expiry(ctx.rng, i, TMO) for i in range(3 if quick else 16)] if exe else []
+    # an attached carrier idle past the retention (record expired, queue empty), then WriteTo for ClientIDs without a record;
+    # the scenarios run concurrently in the driver (each really waits 1.75 timeouts)
+    expiry += [gen_expiry(ctx.rng, 100 + i, TMO, fresh=1 + i % 3) for i in range(6 if quick else 40)] if exe else []
     mlines = ["carrierlayer run " + ",".join(mops) for _, mops, _ in scen]
     mlines += ["carrierlayer trun %d %s" % (RETENTION, ",".join(tm)) for _, tm in timed]
     mlines += ["carrierlayer trun %d %s" % (TMO, ",".join(mops)) for _, mops, _ in expiry]
@@ -1296,23 +1343,17 @@ def run(ctx):
     # ---- beyond the retention
     for j, (ops, mops, meta) in enumerate(expiry):
         line, o, ml, mo = lines[pos + j], out[pos + j], mlines[pos + j], mout[pos + j]
-        ctx.count(line, kind="expiry")
+        ctx.count(line, kind="expiry" + ("+new-clientid-after-expiry" if meta["fresh"] else ""))
         rep = dict(case=line[:8000], impl=o[:3000], model=mo[:3000], model_case=ml[:8000])
         if o.startswith("!"):
             ctx.violation("request-" + o.split(" ")[0].strip("!:"), "driver failure: " + o[:200], rep)
             continue
         d, md = parse_impl(o), parse_impl(mo)
         # property: nothing crosses sessions, nothing is written twice, also around an expiry
-        seen = {}
-        for i, k in enumerate(meta["carriers"]):
-            st, wire = d.get("k%d" % i, "open:x").split(":")
-            chunks, e = c09.py_decode(wire[1:])
-            for p in chunks:
-                seen[p] = seen.get(p, 0) + 1
-        for p, cnt in seen.items():
-            if cnt > 1:
-                ctx.violation("downstream-duplicated", "packet %s.. was written to %d carriers" % (p[:16], cnt), rep)
-        if not fields_equal(meta, d, md):
+        ebad = check_expiry(meta, d)
+        for key, text in ebad:
+            ctx.violation(key, text, rep)
+        if not ebad and not fields_equal(meta, d, md):
             ctx.not_shown("correspondence carrierlayer (expiry): model and implementation disagree: case=%s impl=%s model=%s" % (ml[:500], o[:300], mo[:300]))
     pos += len(expiry)
     # ---- moving sessions through the real Listen / Accept (black box)
